@@ -9,7 +9,7 @@ WEIGHTS = {'newc': 1, 'newp': 0.4, 'cc': 5, 'cp': 3, 'pc': 3, 'pp': 4, 'remove':
 
 def make_cases(chk):
     n = 60 if chk.tier == 'quick' else 600
-    hi = 12 if chk.tier == 'quick' else 30
+    hi = 12 if chk.tier == 'quick' else 16     # the model's exact rationals grow with the length of a history: more histories, not longer ones
     gens = []
     for i in range(n):
         rng = random.Random(chk.seed * 100003 + 30000 + i)
@@ -22,14 +22,87 @@ def nontrivial(prog, obs):
     return [(op['op'], op['q']['b'], op['q']['p'], o['ok']) for op, o in zip(prog['ops'], obs) if op['op'] in ('transfer', 'fill') and 'q' in op] + [('newc', o['ok']) for op, o in zip(prog['ops'], obs) if op['op'] == 'newc' and op.get('max')]
 
 
+def oracle(prog, obs, impl):
+    from props import C05
+    f = oracles.c03(prog, obs, impl)
+    if any(op['op'] in ('solution', 'solutionc') for op in prog['ops']):
+        f += [x for x in C05.oracle(prog, obs, impl) if 'no positive solution' in x[1] or 'was refused' in x[1] or 'non-positive' in x[1]]
+    return f
+
+
+def non_numbers(chk):
+    """requests that are not amounts at all (float() parses 'nan' and 'inf'): every operation must refuse them with ValueError and
+    no value with a non-finite amount or volume may ever be returned (implementation only: the model's quantities are rationals)"""
+    import math
+    from pyplate import Container, Plate, Substance
+    w = Substance.liquid('water', 18.0153, 1)
+    s = Substance.solid('NaCl', 58.44)
+    fails = []
+
+    def finite(o):
+        cs = [o] if isinstance(o, Container) else list(o.wells.flatten())
+        return all(math.isfinite(c.volume) and all(math.isfinite(a) for a in c.contents.values()) for c in cs)
+
+    def probe(label, f):
+        try:
+            r = f()
+        except ValueError:
+            return
+        except Exception as e:  # noqa
+            fails.append(f"{label}: raised {type(e).__name__} instead of ValueError")
+            return
+        objs = r if isinstance(r, tuple) else (r,)
+        if not all(finite(o) for o in objs if isinstance(o, (Container, Plate))):
+            fails.append(f"{label}: accepted and returned a value with a non-finite amount or volume")
+        else:
+            fails.append(f"{label}: accepted")
+    for bad in ('nan', 'NaN', '-inf'):
+        a = Container('a', '1 L', [(w, '10 mL'), (s, '1 g')])
+        b = Container('b', '1 L')
+        p = Plate('p', '500 uL', rows=2, columns=2)
+        for u in ('mL', 'g', 'mol'):
+            probe(f"Container('c', '1 L', [(water, '{bad} {u}')])", lambda: Container('c', '1 L', [(w, f"{bad} {u}")]))
+            probe(f"Container.transfer(a, b, '{bad} {u}')", lambda: Container.transfer(a, b, f"{bad} {u}"))
+            probe(f"a.fill_to(water, '{bad} {u}')", lambda: a.fill_to(w, f"{bad} {u}"))
+        probe(f"Plate.transfer(a, plate, '{bad} uL')", lambda: Plate.transfer(a, p, f"{bad} uL"))
+        probe(f"a.dilute(NaCl, '{bad} M', water)", lambda: a.dilute(s, f"{bad} M", w))
+        probe(f"Container.create_solution(NaCl, water, concentration='{bad} M', total_quantity='10 mL')",
+              lambda: Container.create_solution(s, w, concentration=f"{bad} M", total_quantity='10 mL'))
+        probe(f"Container.create_solution(NaCl, water, concentration='1 M', total_quantity='{bad} mL')",
+              lambda: Container.create_solution(s, w, concentration='1 M', total_quantity=f"{bad} mL"))
+        probe(f"Container('c', '{bad} L')", lambda: Container('c', f"{bad} L"))
+    return fails
+
+
 def run(chk, gate, status):
     gens = make_cases(chk)
     chk.assumptions += ['requests within 1e-6 (relative) of a feasibility boundary are not judged by the oracle, except the directed exactly-on-boundary cases built from short decimals']
-    return histcheck.run(chk, gens, oracles.c03, 'C03', RULE, nontrivial)
+    # create_solution requests, feasible and infeasible (the refusal clause for the solver-backed operations; generator of C05)
+    import copy
+    from props import C05
+    sub = copy.copy(chk); sub.tier = 'quick'
+    gens = gens + C05.make_cases(sub)[:(20 if chk.tier == 'quick' else 60)]
+    cov = histcheck.run(chk, gens, oracle, 'C03', RULE, nontrivial)
+    cov['operations_under_configuration_variants'] = histcheck.variants(chk, gens[:40], oracles.c03, 'C03v', limit=8 if chk.tier == 'quick' else 60)
+    nn = non_numbers(chk)
+    for t in nn[:3]:
+        chk.violation(t, {'kind': 'non-number request', 'what': t})
+    cov['non_number_probes'] = 3 * 15
+    cov['oracle_failures'] += 1 if nn else 0
+    return cov
 
 
 def replay(path):
-    return histcheck.replay(path, oracles.c03)
+    import json
+    r = json.load(open(path))
+    if r.get('kind') == 'non-number request':
+        class C: pass
+        nn = non_numbers(C)
+        for t in nn[:5]:
+            print('PROPERTY FAILS:', t)
+        print('property', 'FAILS' if nn else 'HOLDS', 'on this input')
+        return 1 if nn else 0
+    return histcheck.replay(path, oracle)
 
 
 def boundary_cases(chk):
